@@ -14,7 +14,7 @@ import Preflate.Proofs.HuffTree
 import Preflate.Proofs.ChainBounds
 import Preflate.Proofs.Estimator
 import Preflate.Proofs.Estimator4k
-import Preflate.Proofs.Expands
+import Preflate.Proofs.EndToEnd
 import Preflate.Props.C08
 import Preflate.Props.C10
 namespace Preflate
@@ -71,10 +71,9 @@ theorem chain_positions_in_u16_estimated (plain : Array Nat) (blocks : List Bloc
     `estimate` requests) has no panic path on anything the parser returns: the only candidate, the u32
     subtraction `current_offset - dist` of estimate_add_policy, cannot underflow because the parser
     admits a reference only when its distance does not exceed the bytes produced -/
-theorem estimator_front_no_panic (d : List UInt8) (hd : d.length < 2 ^ 29) (p : Parsed)
-    (hp : parse d = .ok p) (m : String) : Est.front p.blocks ≠ .error (.panic m) := by
-  have hl := Proofs.length_bytesToBits d
-  exact Proofs.front_no_panic p.plain p.blocks (Proofs.parse_valid (bytesToBits d) (by omega) p hp).1 m
+theorem estimator_front_no_panic (d : List UInt8) (p : Parsed)
+    (hp : parse d = .ok p) (m : String) : Est.front p.blocks ≠ .error (.panic m) :=
+  Proofs.front_no_panic p.plain p.blocks (Proofs.parse_valid_unbounded (bytesToBits d) p hp).1 m
 
 /-- on ANY block list the front part ends in Ok or in that one panic: no other failure, no fuel -/
 theorem estimator_front_total (blocks : List Block) :
